@@ -56,7 +56,7 @@ impl Prop for C10 {
     fn budget(tier: Tier) -> Budget {
         match tier {
             Tier::Quick => Budget { cases: 80000, shards: 16 },
-            Tier::Thorough => Budget { cases: 640000, shards: 16 },
+            Tier::Thorough => Budget { cases: 7680000, shards: 16 },
         }
     }
 
